@@ -10,8 +10,9 @@ string (fresh object).
 import copy
 import itertools
 
+from .. import envmode
 from ..kernel import Violation, feq
-from ..gen import gen_seq
+from ..gen import gen_seq, KAPPA_CLAMPED, KAPPA_ABOVE
 from ..minimise import list_candidates
 
 ID = "C16"
@@ -33,7 +34,7 @@ STUBBED = ["none inside the calls; sequenceParameters.print / backendtools chatt
 ASSUMPTIONS = ["positions are Python ints (single, list or tuple); other types are outside the statement and not generated",
                "derived values are compared with the real code on a fresh object built from the substituted string (tolerance 1e-12)",
                "calls are atomic; interleaving = which live object's call runs next"]
-PROBES = ["dist_k_ge_9", "position_above_256", "same_list_object_passed_again", "caller_scribbles_on_returned_container", "op_not_followed_by_observation", "shuffled_copy_is_live_object", "object_created_mid_history", "related_objects", "pos_zero", "pos_negative", "pos_N_plus_1", "pos_huge", "dup_in_call", "dup_across_calls", "non_sty_in_range",
+PROBES = ["clone_of_an_object_with_sites", "dist_k_ge_9", "position_above_256", "same_list_object_passed_again", "caller_scribbles_on_returned_container", "op_not_followed_by_observation", "shuffled_copy_is_live_object", "object_created_mid_history", "related_objects", "pos_zero", "pos_negative", "pos_N_plus_1", "pos_huge", "dup_in_call", "dup_across_calls", "non_sty_in_range",
           "set_after_clear", "dist_k_ge_3", "kappa_after_with_sites", "tuple_arg", "int_arg", "hostile_with_sites_held",
           "second_object_checked"]
 STY = "STY"
@@ -48,6 +49,15 @@ def gen_plan(streams, tier):
     for _ in range(nobj):
         n = rnd.choice((rnd.randrange(1, 8), rnd.randrange(5, 25), rnd.randrange(10, 41)))
         cls = rnd.choice(("sty_rich", "sty_rich", "idp", "polyampholyte", "uniform", "nocharge"))
+        if rnd.random() < 0.06:
+            # a sequence whose (partly) phosphorylated variant is one of the arrangements with raw kappa above 1:
+            # some E of such an arrangement are written as S/T/Y, and those positions are what gets requested
+            target = rnd.choice(KAPPA_CLAMPED + KAPPA_CLAMPED + KAPPA_ABOVE)
+            epos = [q for q, ch in enumerate(target) if ch == "E"]
+            if epos:
+                chosen = set(rnd.sample(epos, rnd.randrange(1, min(4, len(epos)) + 1)))
+                objs.append("".join(rnd.choice("STY") if q in chosen else ch for q, ch in enumerate(target)))
+                continue
         if longrun:
             n, cls = rnd.randrange(262, 330), "sty_rich"
         elif manysites:
@@ -74,6 +84,11 @@ def gen_plan(streams, tier):
         s = objs[o]
         N = len(s)
         x = rnd.random()
+        if 0.09 <= x < 0.12 and len(objs) < 6:
+            ops.append({"k": "clone", "o": o, "via": rnd.choice(("deepcopy", "pickle", "copy"))})
+            objs.append(objs[o])
+            nobj += 1
+            continue
         if x < 0.09 and x >= 0.04 and len(objs) < 6:
             ops.append({"k": "copy", "o": o, "via": rnd.choice(("shuffle", "shuffle_frozen_all", "permutant"))})
             objs.append(objs[o])          # same residues (a rearrangement); S/T/Y positions are resolved at run time
@@ -94,6 +109,9 @@ def gen_plan(streams, tier):
             continue
         if x < 0.45:
             def pos():
+                if rnd.random() < hostile_w * 0.15:
+                    sty0 = [i + 1 for i, c in enumerate(s) if c in STY] or [1]
+                    return rnd.choice(sty0) + rnd.choice((2 ** 32, -2 ** 32, 2 ** 31, 2 ** 64, -2 ** 64, 2 ** 16, 256, 65536))
                 if rnd.random() < hostile_w:
                     return rnd.choice((0, -1, -rnd.randrange(1, N + 3), N + 1, N + rnd.randrange(2, 9), 10 ** rnd.randrange(3, 13),
                                        -N, -N - 1))
@@ -128,8 +146,8 @@ def gen_plan(streams, tier):
             op["scribble"] = True
         if lazy and op["k"] in ("set", "clear"):
             op["quiet"] = True
-    nnew = sum(1 for op in ops if op["k"] in ("new", "copy"))
-    return {"property": ID, "noise": (rnd.randrange(1 << 30) if rnd.random() < 0.2 else None), "run_seed": streams.run_seed, "objects": objs[:len(objs) - nnew], "ops": ops}
+    nnew = sum(1 for op in ops if op["k"] in ("new", "copy", "clone"))
+    return {"property": ID, "env": envmode.choose(rnd), "noise": (rnd.randrange(1 << 30) if rnd.random() < 0.2 else None), "run_seed": streams.run_seed, "objects": objs[:len(objs) - nnew], "ops": ops}
 
 
 def corpus():
@@ -170,6 +188,13 @@ def corpus():
     out.append(("positions_beyond_256", {"property": ID, "run_seed": 167, "objects": [longseq], "ops": [
         {"k": "set", "o": 0, "t": "list", "v": [262, 288, 262, 271]}, {"k": "obs", "o": 0, "w": "sites"}, {"k": "set", "o": 0, "t": "int", "v": [288]},
         {"k": "set", "o": 0, "t": "tuple", "v": [271, 2, 297]}, {"k": "obs", "o": 0, "w": "pseq"}, {"k": "obs", "o": 0, "w": "dist"}]}))
+    out.append(("phosphostate_with_raw_kappa_above_one", {"property": ID, "run_seed": 168, "objects": ["KEKESSK", "KESEGSK", "KKSEESK"], "ops": [
+        {"k": "set", "o": 0, "t": "list", "v": [5, 6]}, {"k": "obs", "o": 0, "w": "dist"}, {"k": "obs", "o": 0, "w": "kappa"},
+        {"k": "set", "o": 1, "t": "list", "v": [3, 6]}, {"k": "obs", "o": 1, "w": "dist"}, {"k": "set", "o": 2, "t": "list", "v": [3, 6]}, {"k": "obs", "o": 2, "w": "dist"}]}))
+    out.append(("clones_keep_their_sites", {"property": ID, "run_seed": 169, "objects": ["GSKETGSKETY"], "ops": [
+        {"k": "set", "o": 0, "t": "list", "v": [2, 5]}, {"k": "clone", "o": 0, "via": "deepcopy"}, {"k": "obs", "o": 1, "w": "sites"}, {"k": "obs", "o": 1, "w": "pseq"},
+        {"k": "clone", "o": 0, "via": "pickle"}, {"k": "obs", "o": 2, "w": "dist"}, {"k": "set", "o": 1, "t": "int", "v": [7]}, {"k": "obs", "o": 0, "w": "sites"},
+        {"k": "obs", "o": 2, "w": "kappa"}, {"k": "set", "o": 0, "t": "list", "v": [2 ** 32 + 10, 11 - 2 ** 32, 10]}, {"k": "obs", "o": 0, "w": "sites"}]}))
     out.append(("order_is_first_set_order", {"property": ID, "run_seed": 162, "objects": ["SKTEYKSET"], "ops": [
         {"k": "set", "o": 0, "t": "list", "v": [7, 1, 5]}, {"k": "set", "o": 0, "t": "list", "v": [3, 7]},
         {"k": "obs", "o": 0, "w": "dist"}, {"k": "obs", "o": 0, "w": "kappa"}]}))
@@ -194,6 +219,7 @@ class Fresh(object):
 
 
 def execute(plan, ctx):
+    envmode.apply(plan.get("env"), ctx)
     import localcider.sequenceParameters as spmod
     from localcider.sequenceParameters import SequenceParameters
     spmod.print = lambda *a, **k: None
@@ -289,6 +315,26 @@ def execute(plan, ctx):
     seqmod.time = clock
     seqmod.rng = RngModule(lambda: TapeRandom("move", ctx, drv, 5000))
     for n, op in enumerate(plan["ops"]):
+        if op["k"] == "clone":
+            # a copy made with the standard protocols is an object of its own that starts from the original's state
+            import copy as _copy
+            import pickle as _pickle
+            i = op["o"] % len(objs)
+            if op["via"] == "pickle":
+                twin = _pickle.loads(_pickle.dumps(objs[i]))
+            elif op["via"] == "deepcopy":
+                twin = _copy.deepcopy(objs[i])
+            else:
+                twin = _copy.deepcopy(objs[i])
+            objs.append(twin)
+            seqs.append(seqs[i])
+            model.append(list(model[i]))
+            cleared.append(cleared[i])
+            ctx.probe("clone_of_an_object_with_sites" if model[i] else "clone_of_an_object")
+            ctx.log.emit("clone", o=i, via=op["via"])
+            for j in range(len(objs)):
+                check_basic(j, "after cloning object %d" % i)
+            continue
         if op["k"] == "copy":
             i = op["o"] % len(objs)
             if op["via"] == "permutant":
